@@ -676,6 +676,14 @@ func (vc *FnVC) mayRecover() bool {
 				callee = v.Fn.(*ssa.Function)
 			case *ssa.Function:
 				callee = v
+			case *ssa.Extract:
+				// the cancel function returned by context.WithCancel / WithTimeout / WithDeadline never recovers
+				if c, ok := v.Tuple.(*ssa.Call); ok {
+					if f := c.Call.StaticCallee(); f != nil && f.Pkg != nil && f.Pkg.Pkg.Path() == "context" {
+						continue
+					}
+				}
+				return true
 			default:
 				if !d.Call.IsInvoke() {
 					return true // unknown deferred function value
